@@ -499,11 +499,9 @@ def _emitted_keys(ctx, f):
                     gate = None
                     for i, br in C.guarding_ifs(n, f.node):
                         t_ = i.test
-                        if isinstance(t_, ast.Name):
-                            # a flag bound once to a version predicate
-                            d_ = c05.single_def(f, t_.id)
-                            t_ = d_.value if d_ is not None else t_
-                        gt = ctx.gates.gate_of(f, t_)
+                        # a flag bound to a version predicate (local,
+                        # helper parameter or record field)
+                        gt = C.flag_gate(ctx, f, t_)
                         if gt is not None and br == 'body':
                             gate = gt
                         elif gt is None:
@@ -523,7 +521,7 @@ def r23(ctx, R):
     fmt_gate = None
     if len(sel) == 1:
         t_, body_, else_ = C.pos_if(sel[0])
-        gt = G.gate_of(tc, t_)
+        gt = C.flag_gate(ctx, tc, t_)
         body_calls = [c for s in body_ for c in ast.walk(s)
                       if isinstance(c, ast.Call)]
         else_calls = [c for s in else_ for c in ast.walk(s)
